@@ -127,6 +127,28 @@ def base_of(t: str) -> str:
     return t.replace("[", "").replace("]", "").replace("!", "")
 
 
+_BUNDLED_ATTRS: Optional[List[str]] = None
+
+
+def bundled_base_model_attributes() -> List[str]:
+    """Public attributes of the BaseModel the generator ships (dependencies/base_model.py of the tree under test) that pydantic's own BaseModel lacks."""
+    global _BUNDLED_ATTRS
+    if _BUNDLED_ATTRS is None:
+        try:
+            import importlib.util
+            import os
+
+            import pydantic
+            repo = os.environ.get("VERIF_REPO", "/repo")
+            spec = importlib.util.spec_from_file_location("_vf_bundled_base_model", os.path.join(repo, "ariadne_codegen/client_generators/dependencies/base_model.py"))
+            mod = importlib.util.module_from_spec(spec)
+            spec.loader.exec_module(mod)
+            _BUNDLED_ATTRS = sorted(a for a in set(dir(mod.BaseModel)) - set(dir(pydantic.BaseModel)) if not a.startswith("_"))
+        except Exception:  # noqa: BLE001
+            _BUNDLED_ATTRS = []
+    return _BUNDLED_ATTRS
+
+
 class Names:
     """Unique names drawn from name classes; uniqueness is by a running counter so that no two
     names of a schema collide after snake-casing unless a dirty switch asks for it."""
@@ -168,6 +190,10 @@ class Names:
         for cls_name, pool in self.DIRTY_POOLS.items():
             if cls_name in self.dirty and self.rng.random() < 0.3:
                 free = [p for p in pool if p not in self.used and p.lower() not in self.used]
+                if cls_name == "names.pydantic_attr":
+                    # whatever the tree under test adds to the generated package's own BaseModel is a name a user's field may have as well: those first
+                    own = [p for p in bundled_base_model_attributes() if p not in self.used and p.lower() not in self.used]
+                    free = own or free
                 if free:
                     self.feats.add(cls_name)
                     return self._uniq(self.rng.choice(free))
